@@ -356,6 +356,46 @@ func lenTestedBefore(f *ssa.Function, s ssa.Value, c int64, use ssa.Instruction)
 			}
 		}
 	}
+	// strings.Split*(x, sep)[1] under the true branch of strings.Contains(x, sep):
+	// a string that contains the separator splits into at least two parts
+	if call, ok := unspill(s).(*ssa.Call); ok && c == 1 {
+		if sc := call.Call.StaticCallee(); sc != nil && sc.Pkg != nil && sc.Pkg.Pkg.Path() == "strings" && strings.HasPrefix(sc.Name(), "Split") && len(call.Call.Args) >= 2 {
+			sep, okSep := constString(call.Call.Args[1])
+			nOK := true
+			if len(call.Call.Args) == 3 { // SplitN: n must allow two parts
+				n, isK := constInt(call.Call.Args[2])
+				nOK = isK && (n < 0 || n >= 2)
+			}
+			if okSep && sep != "" && nOK {
+				subj := exprKey(call.Call.Args[0], 0)
+				guarded := false
+				eachInstr(f, func(_ *ssa.BasicBlock, i ssa.Instruction) {
+					cc, ok := i.(*ssa.Call)
+					if !ok || guarded {
+						return
+					}
+					c2 := cc.Call.StaticCallee()
+					if c2 == nil || c2.Pkg == nil || c2.Pkg.Pkg.Path() != "strings" || c2.Name() != "Contains" {
+						return
+					}
+					if s2, ok := constString(cc.Call.Args[1]); !ok || s2 != sep {
+						return
+					}
+					if cc.Call.Args[0] != call.Call.Args[0] && exprKey(cc.Call.Args[0], 0) != subj {
+						return
+					}
+					for _, br := range branchesOn(cc) {
+						if (br.TrueSucc == use.Block() || br.TrueSucc.Dominates(use.Block())) && len(br.TrueSucc.Preds) == 1 {
+							guarded = true
+						}
+					}
+				})
+				if guarded {
+					return true
+				}
+			}
+		}
+	}
 	key := exprKey(s, 0)
 	found := false
 	eachInstr(f, func(_ *ssa.BasicBlock, i ssa.Instruction) {
@@ -421,8 +461,10 @@ func lenTestedBefore(f *ssa.Function, s ssa.Value, c int64, use ssa.Instruction)
 			falseImplies = k >= c
 		case token.EQL:
 			trueImplies = k >= c+1
+			falseImplies = k == 0 && c == 0 // len != 0 ⇒ len >= 1
 		case token.NEQ:
 			falseImplies = k >= c+1
+			trueImplies = k == 0 && c == 0
 		}
 		for _, br := range branchesOn(bin) {
 			if trueImplies {
@@ -477,6 +519,7 @@ func runDeref(c *Check, rule string, entries []*ssa.Function, gr *guardResult, o
 	sort.Slice(fns, func(i, j int) bool { return fnName(fns[i]) < fnName(fns[j]) })
 	nLook, nIdx := 0, 0
 	for _, f := range fns {
+		before := nLook + nIdx
 		eachInstr(f, func(_ *ssa.BasicBlock, i ssa.Instruction) {
 			switch x := i.(type) {
 			case *ssa.Lookup:
@@ -491,9 +534,13 @@ func runDeref(c *Check, rule string, entries []*ssa.Function, gr *guardResult, o
 				}
 			}
 		})
-		for _, d := range derefsIn(p, f) {
+		ds := derefsIn(p, f)
+		for _, d := range ds {
 			key := fmt.Sprintf("%s|%s", fnName(f), d.kind)
 			c.Ob(rule, key, p.pos(d.ins.Pos()), Flag, d.what, chainTo(all, f, p)...)
+		}
+		if ex := nLook + nIdx - before; ex > 0 {
+			c.Okf(rule, fnName(f)+"|examined", p.pos(f.Pos()), "%d pointer-valued map look-ups and constant indexings of reference paths/split results examined in this function: %d reported, the others are tested (nil/ok/length) before use or only passed to nil-safe getters", ex, len(ds))
 		}
 	}
 	c.Counts[rule+"_functions_scanned"] = len(fns)
